@@ -100,6 +100,11 @@ def single_scenarios():
         n = "late_registration:%s" % "+".join("%s-%s" % (x[0], "before" if x[1] else "after") for x in late)
         sc[n] = scn_for(n, [["execution", False, None, None]])
         sc[n].cfg["E"].update(late_hooks=late, late_on="execution")
+    # one event entry listed under both sessions: two instances, each with all its hooks
+    for specs in ([["order", False, None, None], ["market", True, [1, 3], None]], [["session", True, None, None], ["execution", False, None, None], ["cancel", True, [2], None]]):
+        n = "listed_under_both_sessions:%s" % "+".join(spec_name(x) for x in specs)
+        sc[n] = scn_for(n, specs)
+        sc[n].cfg["simulation"]["sessions"][1]["events"] = ["E"]
     sc["alter:order-before"] = scn_for("alter:order-before", [["order", True, None, None]], alter=["price", 97.5])
     return sc
 
